@@ -340,3 +340,29 @@ def add_intparse(reg):
         reg.specfuns[nm + '_ok'] = SpecFun(nm + '_ok', ['bytes'], 'bool')
     reg.assumptions.append('A-STR: int(s) / int(s, 16) raise ValueError exactly outside an uninterpreted validity predicate; '
                            'their value is an uninterpreted function of the text')
+
+
+def add_dict_values(reg):
+    """dvals(K, m, n): the values of the first n keys of an (ordered) dict with opaque-object
+    values, in key order (right recursion) — for ghost logs of per-plugin hook calls."""
+    S = z3.StringSort()
+    SS = z3.SeqSort(S)
+    A = z3.ArraySort(S, z3.IntSort())
+    SI = z3.SeqSort(z3.IntSort())
+    dv = z3.Function('dvals', SS, A, z3.IntSort(), SI)
+
+    class DVals(object):
+        name, restype, define, pyimpl = 'dvals', ('list', 'int'), None, None
+        decl = dv
+
+        def apply(self, K, m, n):
+            return dv(K, m, n)
+
+        def unfold(self, K, m, n):
+            ax = []
+            for d in range(2):
+                k = n - d
+                ax.append(dv(K, m, k) == z3.If(k <= 0, z3.Empty(SI), z3.Concat(dv(K, m, k - 1), z3.Unit(z3.Select(m, K[k - 1])))))
+                ax.append(z3.Length(dv(K, m, k)) == z3.If(k <= 0, 0, k))
+            return ax
+    reg.specfuns['dvals'] = DVals()
